@@ -141,6 +141,16 @@ CHECKS["C20"] = dict(
    note="In-process requests (starlette TestClient); read-out through public getters, queue content by draining and restoring.",
    design="6/C20", technique=TECH)
 
+CHECKS["C17"] = dict(
+   text=("Isolation.tla: storage names = Sanitize(id) + hash token + component; every pair of ids over a small alphabet plus ids "
+         "crafted to look like another id's storage prefix: NamesDisjoint, PurgeTouchesOnlyOwn, PurgeCoversOwn (the LIKE-based "
+         "purge of the pinned commit is an expected counterexample). Pairs and triples of real applications with adversarial id "
+         "strings (punctuation / case variants, quotes, semicolons, LIKE wildcards, unicode, leading digits, ids equal to another "
+         "id's real storage prefix or table name) share one SQLite file / one process; after every operation (incl. purge of each "
+         "component) TLC compares the full read-out of every other application and the table lists."),
+   note="SHA-256 8-hex prefixes are assumed collision-free (checked for the concrete ids used); sequential operation interleavings.",
+   design="6/C17", technique=TECH)
+
 NOT_YET = {}
 
 def main() -> None:
